@@ -231,6 +231,10 @@ func (f *compressFilter) decompress(src []byte) ([]byte, error) {
 	if !ok {
 		return nil, errInvalidCpsAlgorithm
 	}
+	// the header ends with CRLF; anything else is not a compressed value
+	if !bytes.Equal(CRLF, src[len(cpsMagicNumber)+1:cpsHdrLen]) {
+		return nil, errMissingCpsHdr
+	}
 
 	// decode with specified algorithm
 	br := newReader()
